@@ -37,7 +37,7 @@ RULE_GEN = ("; S-GEN: every function of the generated model lean/BBGen/Gen.lean 
 
 PROPS: dict = {
     "C01": {"suites": [props_tree.c01], "rule": RULE_TREE},
-    "C02": {"suites": [props_tree.c02, gen.suite_gen({"min_safe_uint", "centroid"})], "rule": RULE_TREE + RULE_GEN},
+    "C02": {"suites": [props_tree.c02, gen.suite_gen({"min_safe_uint", "centroid", "subcluster"})], "rule": RULE_TREE + RULE_GEN},
     "C03": {"suites": [props_tree.c03, gen.suite_gen({"merges"})], "rule": RULE_TREE + RULE_GEN},
     "C04": {"suites": [c04.suite_repr, c04.suite_pages, gen.suite_gen({"pages"})],
             "rule": "data sets x 5-10 random (representation, dtype, chunking) variants {packed,unpacked} x {ndarray,list,Path,str path} x 8 "
@@ -49,7 +49,7 @@ PROPS: dict = {
     "C06": {"suites": [multiround.suite_c06], "rule": RULE_MR, "proof_modules": ["BBProps.C06", "BBProofs.Multiround", "BBProofs.Names"]},
     "C07": {"suites": [props_tree.c07, legacy.suite_legacy], "rule": RULE_TREE + "; S-LEGACY: bblean vs _legacy.bb_uint8 vs "
             "_legacy.bb_int64 on 2048-bit inputs (radius, diameter, tolerance-legacy), non-trivial = case with a multi-member cluster"},
-    "C08": {"suites": [props_tree.c08], "rule": RULE_TREE},
+    "C08": {"suites": [props_tree.c08, gen.suite_gen({"subcluster"})], "rule": RULE_TREE + RULE_GEN},
     "C09": {"suites": [props_tree.c09], "rule": RULE_TREE},
     "C10": {"suites": [prims.suite_merge, gen.suite_gen({"merges", "dispatch"})], "rule": RULE_MERGE + RULE_GEN,
             "proof_modules": ["BBProps.C10", "BBProofs.GenEq", "BBProofs.PyNum", "BBGen.Gen", "BBModel.PyNum"]},
